@@ -31,8 +31,10 @@ RULE = (
     "interleaved with static positional values at any position, keyword statics, generator nodes with N in 1..15 declared outputs "
     "named as the fluent API names them, outputs consumed by several nodes or none, optionally a generator that yields one value "
     "fewer or more than declared; (fluent) from_source -> map(generator, yields=N coordinates, N in 1..15) -> optional map/reduce "
-    "consumers. non-trivial = a multi-output node with N >= 3 consumed by >= 2 nodes, or a node mixing >= 2 inputs with >= 1 static "
-    "positional between them, or a count mismatch; counters for N > 10 and |yields - N| = 1; distinct = fingerprint of the case"
+    "consumers; (payload) one user-supplied fluent Payload object (statics, optional explicit input placeholder, keywords, or a "
+    "functools.partial) used for a map and for a reduce over 2-11 inputs (batch sizes 0/2/3/4, uneven batches), shared or separate "
+    "object, either construction order. non-trivial = a multi-output node with N >= 3 consumed by >= 2 nodes, or a node mixing >= 2 inputs with >= 1 static "
+    "positional between them, or a count mismatch, or a shared Payload object / uneven batches; counters for N > 10 and |yields - N| = 1; distinct = fingerprint of the case"
 )
 ASSUMPTIONS = [
     "multi-output nodes name their outputs str(i) in declaration order (the fluent convention); static string arguments never equal "
@@ -112,7 +114,21 @@ def fluent_specs(draw):
             "labels": draw(st.booleans())}
 
 
-cases = st.one_of(hand_specs(), hand_specs(), fluent_specs())
+@st.composite
+def payload_specs(draw):
+    """One user-supplied fluent Payload object (statics, an optional explicit input placeholder, keywords; or a functools.partial)
+    used for nodes of different arity: a map (1 input) and a reduce over k inputs, optionally batched with uneven batches, in either
+    construction order, with the SAME Payload object or two equal ones."""
+    k = draw(st.sampled_from([2, 3, 4, 5, 7, 11]))
+    nstat = draw(st.integers(0, 3))
+    stat = [draw(statics) for _ in range(nstat)]
+    return {"kind": "payload", "k": k, "statics": stat, "placeholder": draw(st.one_of(st.none(), st.integers(0, nstat))),
+            "kwargs": {kk: draw(statics) for kk in draw(st.lists(st.sampled_from(["a", "kw"]), max_size=2, unique=True))},
+            "partial": draw(st.booleans()), "share": draw(st.booleans()), "order": draw(st.sampled_from(["map_first", "reduce_first"])),
+            "batch": draw(st.sampled_from([0, 0, 2, 3, 4])), "second_reduce": draw(st.booleans())}
+
+
+cases = st.one_of(hand_specs(), hand_specs(), fluent_specs(), payload_specs())
 
 
 class FakeMemory:
@@ -337,7 +353,89 @@ def run_fluent(c) -> tuple[bool, list[str]]:
     return N >= 3 and c["consumer"] != "none", classes
 
 
+def _rec(*args, **kwargs):
+    return ("P", tuple(args), tuple(sorted(kwargs.items())))
+
+
+_rec.batchable = True
+
+
+def run_payload(c) -> tuple[bool, list[str]]:
+    import functools
+
+    k, stat, kw, ph = c["k"], list(c["statics"]), dict(c["kwargs"]), c["placeholder"]
+    classes = ["kind:payload", f"batch:{c['batch']}", "shared_payload" if c["share"] else "separate_payloads", c["order"]]
+    use_partial = c["partial"] and ph is None  # a partial carries no placeholders
+
+    def mk():
+        if use_partial:
+            return fluent.Payload(functools.partial(_rec, *stat, **kw))
+        args = list(stat)
+        if ph is not None:
+            args.insert(ph, "input0")
+        return fluent.Payload(_rec, args, dict(kw))
+
+    if any(isinstance(x, str) and x.startswith("input") for x in stat):
+        return False, classes  # cannot happen with the statics alphabet; keeps the documented ambiguity out
+    src = fluent.from_source(np.array([_src(i) for i in range(k)], dtype=object), dims=["x"], coords={"x": list(range(k))})
+    p_map = mk()
+    p_red = p_map if c["share"] else mk()
+    built = {}
+    for what in (["map", "reduce"] if c["order"] == "map_first" else ["reduce", "map"]):
+        if what == "map":
+            built["map"] = src.map(p_map)
+        else:
+            built["reduce"] = src.reduce(p_red, dim="x", batch_size=c["batch"])
+    if c["second_reduce"]:
+        built["reduce2"] = built["map"].reduce(p_red, dim="x", batch_size=0)
+
+    def apply(vals):
+        args = list(stat)
+        vals = list(vals)
+        if ph is not None:
+            args.insert(ph, vals[0])
+            args += vals[1:]
+        else:
+            args += vals
+        return ("P", tuple(args), tuple(sorted(kw.items())))
+
+    def reduce_ref(vals, b):
+        cur = list(vals)
+        if 1 < b < len(cur):
+            while b < len(cur):
+                cur = [apply(cur[i:i + b]) if len(cur[i:i + b]) > 1 else cur[i] for i in range(0, len(cur), b)]
+        return apply(cur)
+
+    svals = [("S", i) for i in range(k)]
+    expect = {"map": [apply([v]) for v in svals], "reduce": [reduce_ref(svals, c["batch"])]}
+    if c["second_reduce"]:
+        expect["reduce2"] = [reduce_ref(expect["map"], 0)]
+    for what, act in built.items():
+        try:
+            job = graph2job(act.graph())
+        except Exception as e:
+            raise Violation(f"graph2job raised {type(e).__name__}: {e}", "lowering-raises")
+        deps = {t: set() for t in job.tasks}
+        for e in job.edges:
+            deps[e.sink_task].add(e.source.task)
+        order: list[str] = []
+        while len(order) < len(deps):
+            order += sorted(t for t in deps if t not in order and deps[t] <= set(order))
+        mem, _rep = _run_job(job, order, None, classes)
+        got = [mem.store.get(DatasetId(n.name, "0"), "<missing>") for n in act.nodes.data.flatten()]
+        if got != expect[what]:
+            raise Violation(f"{what} built from a user Payload (statics {stat!r}, placeholder at {ph}, kwargs {kw!r}, "
+                            f"{'shared' if c['share'] else 'separate'} object, {c['order']}, batch {c['batch']}): computed {got!r} "
+                            f"expected {expect[what]!r}", "payload-value")
+    uneven = 1 < c["batch"] < k and k % c["batch"] != 0
+    if uneven:
+        classes.append("uneven_batches")
+    return c["share"] or uneven, classes
+
+
 def run_case(c):
+    if c["kind"] == "payload":
+        return run_payload(c)
     return run_hand(c) if c["kind"] == "hand" else run_fluent(c)
 
 
